@@ -172,7 +172,7 @@ CHECKS["C20"] = {
     "technique": "property-based testing of long churn workloads with exact byte accounting and a derived allocation bound as oracles (rapid)",
     "level_text": ("engine: generated churn (overwrite / delete / ttl update over 5-50 fixed keys, value sizes <= table/4, through Put or the replica path PutRaw) in rounds with compaction-until-done between rounds; after every round "
                    "Stats().Inuse must equal the encoded size of the live entries exactly (superseded bytes moved to garbage), compaction must report completion within a bound and leave no table at or above the 40 % garbage threshold, "
-                   "and the number of tables ever allocated must stay below ceil(peakLive/(0.6*S-e_max)) + ceil(roundBytes/(S-e_max)) + 3, a bound that does not grow with the number of rounds. "
+                   "and the number of tables ever allocated must stay below ceil(peakLive/(0.6*S-e_max)) + ceil(roundBytes/(S-e_max)) + ceil(peakLive/(S-e_max)) + 4, a bound that does not grow with the number of rounds. "
                    "dmap: the same on real clusters (R 1-2) through client paths, using the compaction worker's own routine, checked per fragment on primaries and on backups."),
     "level_note": "trusted: the derivation of the table bound (DESIGN.md C20); 'of any length' is sampled up to ~10^5 writes in the thorough tier",
     "rule": ("engine: non-trivial = >= 3 rounds and at least one table was recycled. dmap: non-trivial = a backup fragment was examined (R = 2). distinct = distinct case hash"),
